@@ -1,5 +1,5 @@
 INIT Init
 NEXT Next
-CONSTANTS KeyedBy = "short" MaxHist = 3
+CONSTANTS KeyedBy = "short" MaxHist = 3 GraphLen = 2 IndexMemo = "none"
 CONSTRAINT Emit
 CHECK_DEADLOCK FALSE
